@@ -682,6 +682,12 @@ impl<W: Write> RdbWriter<W> {
     
     /// Write raw bytes
     fn write_raw(&mut self, data: &[u8]) -> io::Result<()> {
+        #[cfg(ferrous_verif)]
+        {
+            if verif::should_fail() {
+                return Err(io::Error::new(io::ErrorKind::Other, "verif: injected write failure"));
+            }
+        }
         self.writer.write_all(data)?;
         self.bytes_written += data.len() as u64;
         // Update CRC (simplified - real implementation would use CRC64)
@@ -738,7 +744,30 @@ impl<W: Write> RdbWriter<W> {
     
     /// Flush the writer
     fn flush(&mut self) -> io::Result<()> {
+        #[cfg(ferrous_verif)]
+        {
+            if verif::should_fail() {
+                return Err(io::Error::new(io::ErrorKind::Other, "verif: injected flush failure"));
+            }
+        }
         self.writer.flush()
+    }
+}
+
+/// Verification hook: fail the n-th write call of a save (add-only, compiled only with
+/// `--cfg ferrous_verif`).  Every write_raw call and the final flush count as one call.
+#[cfg(ferrous_verif)]
+pub mod verif {
+    use std::sync::atomic::{AtomicI64, AtomicU64, Ordering};
+    static FAIL_AT: AtomicI64 = AtomicI64::new(-1);
+    static CALLS: AtomicU64 = AtomicU64::new(0);
+    /// Arm the hook: the call with this 0-based index fails (negative = never); resets the counter.
+    pub fn fail_at(n: i64) { FAIL_AT.store(n, Ordering::SeqCst); CALLS.store(0, Ordering::SeqCst); }
+    /// Number of write calls seen since the hook was last armed.
+    pub fn calls() -> u64 { CALLS.load(Ordering::SeqCst) }
+    pub(super) fn should_fail() -> bool {
+        let k = CALLS.fetch_add(1, Ordering::SeqCst) as i64;
+        k == FAIL_AT.load(Ordering::SeqCst)
     }
 }
 
